@@ -126,6 +126,13 @@ def c_stab_state(ctx, args):
         return {'kind': 'oracle', 'where': 'np:stabilizer_state accepted anticommuting stabilizers', 'observed': S.st_list(st), 'expected': 'ValueError'}
     t = S.st_list(st)
     L = len(stabs)
+    if fmt == 'list':
+        # the caller's list is only read: it still holds its rows, and a second state built from the SAME object is the same state
+        if NP.oPL(arg[0]) != [[g, p % 4] for g, p in stabs]:
+            return {'kind': 'oracle', 'where': 'np:stabilizer_state modified the list it was given', 'observed': NP.oPL(arg[0]), 'expected': stabs, 'tags': ['argument_modified']}
+        t2 = S.st_list(pc.stabilizer_state(*arg))
+        if t2 != t:
+            return {'kind': 'oracle', 'where': 'np:stabilizer_state gives another state when called again with the same list object', 'observed': t2, 'expected': t, 'tags': ['history']}
     if t[1] != n - L or t[0][t[1]:n] != [[g, p % 4] for g, p in stabs]:
         return {'kind': 'oracle', 'where': 'np:stabilizer_state rank / active rows', 'observed': [t[1], t[0][t[1]:n]], 'expected': [n - L, stabs]}
     if ctx.model is not None and not ctx.search:
